@@ -434,6 +434,72 @@ CONTRACTS = [
       raises={"ValueError": "order is not None and size is not None"},
       ensures={"dom": "all((n in result) == (n in V(hg)) for n in Node)",
                "val": "all(result[n] == card({k for k in E(hg) if n in k and sel(hg, k, order, size, False)}) for n in V(hg))"}),
+    # ------------------------------------------------------------------ extraction (C05)
+    C("subhypergraph", params={"nodes": "Bag[Int]"}, result="Obj[Hypergraph]", pure=True,
+      requires={"wf": "wf(self)", "present": "all(n in V(self) for n in nodes)"},
+      ensures={
+          "wf": "wf(result)",
+          "weighted": "weighted(result) == weighted(self)",
+          "V": "all((n in V(result)) == (count(nodes, n) >= 1) for n in Node)",
+          # exactly the hyperedges all of whose nodes are selected, with their original weights and metadata
+          "E": "all((k in E(result)) == (k in E(self) and all(count(nodes, n) >= 1 for n in k)) for k in Tuple)",
+          "W": "all(W(result, k) == W(self, k) for k in E(result))",
+          "M": "all(M(result, k) == M(self, k) for k in E(result))",
+          "NM": "all(NM(result, n) == NM(self, n) for n in V(result))",
+      },
+      invariants={
+          0: {"wf": "wf(h)", "weighted": "weighted(h) == weighted(self)",
+              "V": "all((n in V(h)) == (count(nodes, n) >= 1) for n in Node)",
+              "E": "all(k not in E(h) for k in Tuple)",
+              "NM": "all(NM(h, n) == NM(self, n) for n in _done0)"},
+          1: {"wf": "wf(h)", "weighted": "weighted(h) == weighted(self)",
+              "V": "all((n in V(h)) == (count(nodes, n) >= 1) for n in Node)",
+              "E": "all((k in E(h)) == (k in _done1 and all(count(nodes, n) >= 1 for n in k)) for k in Tuple)",
+              "W": "all(W(h, k) == W(self, k) for k in E(h))",
+              "M": "all(M(h, k) == M(self, k) for k in E(h))",
+              "NM": "all(NM(h, n) == NM(self, n) for n in V(h))"}},
+      properties=["C05"]),
+    C("subhypergraph_by_orders", params={"orders": "None", "sizes": "Bag[Int]", "keep_nodes": "Bool"}, fixed={"orders": None},
+      result="Obj[Hypergraph]", pure=True, locals={"sizes": "Bag[Int]"},
+      requires={"wf": "wf(self)", "no_repeat": "all(count(sizes, s) == 1 for s in sizes)"},
+      ensures={
+          "wf": "wf(result)", "weighted": "weighted(result) == weighted(self)",
+          "E": "all((k in E(result)) == (k in E(self) and count(sizes, len(k)) >= 1) for k in Tuple)",
+          "W": "all(W(result, k) == W(self, k) for k in E(result))",
+          "M": "all(M(result, k) == M(self, k) for k in E(result))",
+          "V_keep": "implies(keep_nodes, all((n in V(result)) == (n in V(self)) for n in Node))",
+          "V_drop": "implies(not keep_nodes, all((n in V(result)) == any(n in k for k in E(result)) for n in Node))",
+          "NM": "all(NM(result, n) == NM(self, n) for n in V(result))",
+      },
+      invariants={
+          0: {"wf": "wf(h)", "weighted": "weighted(h) == weighted(self)", "V": "V(h) == V(self)", "E": "all(k not in E(h) for k in Tuple)",
+              "NM": "all(NM(h, n) == NM(self, n) for n in _done0)"},
+          2: {"wf": "wf(h)", "weighted": "weighted(h) == weighted(self)",
+              "E": "all((k in E(h)) == (k in E(self) and count(_done2, len(k)) >= 1) for k in Tuple)",
+              "W": "all(W(h, k) == W(self, k) for k in E(h))", "M": "all(M(h, k) == M(self, k) for k in E(h))",
+              "V_keep": "implies(keep_nodes, V(h) == V(self))",
+              "V_drop": "implies(not keep_nodes, all((n in V(h)) == any(n in k for k in E(h)) for n in Node))",
+              "NM": "implies(keep_nodes, all(NM(h, n) == NM(self, n) for n in V(h)))"},
+          3: {"wf": "wf(h)", "weighted": "weighted(h) == weighted(self)",
+              "E": "all((k in E(h)) == (k in E(self) and (count(_done2, len(k)) >= 1 or count(_done3, k) >= 1)) for k in Tuple)",
+              "W": "all(W(h, k) == W(self, k) for k in E(h))", "M": "all(M(h, k) == M(self, k) for k in E(h))",
+              "V_keep": "implies(keep_nodes, V(h) == V(self))",
+              "V_drop": "implies(not keep_nodes, all((n in V(h)) == any(n in k for k in E(h)) for n in Node))",
+              "NM": "implies(keep_nodes, all(NM(h, n) == NM(self, n) for n in V(h)))"},
+          4: {"wf": "wf(h)", "weighted": "weighted(h) == weighted(self)",
+              "E": "all((k in E(h)) == (k in E(self) and count(sizes, len(k)) >= 1) for k in Tuple)",
+              "W": "all(W(h, k) == W(self, k) for k in E(h))", "M": "all(M(h, k) == M(self, k) for k in E(h))",
+              "V_drop": "all((n in V(h)) == any(n in k for k in E(h)) for n in Node)",
+              "NM": "all(NM(h, n) == NM(self, n) for n in _done4)"}},
+      properties=["C05"]),
+    # copy(): deepcopy is an assumed library contract (equal value, no sharing); proved here: the copy has the same view.
+    # Independence under later mutation is checked in the bounded tier.
+    C("copy", params={}, result="Obj[Hypergraph]", pure=True, requires={"wf": "wf(self)"},
+      ensures={"wf": "wf(result)", "V": "V(result) == V(self)", "E": "E(result) == E(self)",
+               "W": "all(W(result, k) == W(self, k) for k in E(self))", "M": "all(M(result, k) == M(self, k) for k in E(self))",
+               "NM": "all(NM(result, n) == NM(self, n) for n in V(self))", "weighted": "weighted(result) == weighted(self)",
+               "HM": "HM(result) == HM(self)"},
+      properties=["C05"]),
 ]
 
 
